@@ -13,6 +13,8 @@ SCENARIOS = {
     "watch-and-block": ["Base: s", "Watch: In > 2 L/h", "    Mark: w", "    Long", "Block: B", "    Mark: b1", "    Wait: 0.5s", "    End block",
                         "Mark: z", ""],
 }
+# the tick of the experiment is the one that completes a Stop (the engine replaces its interpreter and command manager in it)
+STOPPING = {"stop-completes": ["Base: s", "Mark: a", "Long", "Wait: 2s", "Mark: b", ""]}
 WARMUP = 7
 TAIL = 8
 
@@ -24,6 +26,8 @@ def _request(run, kind):
         return run.inject("Mark: inj")
     if kind == "control":
         return run.control("Pause")
+    if kind == "start":
+        return run.control("Start")
     if kind == "cancel":
         return run.cancel(_item(run, "Long"))
     if kind == "force":
@@ -52,6 +56,9 @@ def _fresh(method):
     r.control("Start")
     for _ in range(WARMUP):
         r.tick(0.1, {"In": 3.0})
+    if method in STOPPING.values():
+        r.control("Stop")
+        r.tick(0.1, {"In": 3.0})          # first tick of the Stop; the next one completes it
     return r
 
 
@@ -59,14 +66,14 @@ def _sequential(method, kind, first):
     r = _fresh(method)
     try:
         if first == "request":
-            _request(r, kind)
+            res = _request(r, kind)
             r.tick(0.1, {"In": 3.0})
         else:
             r.tick(0.1, {"In": 3.0})
-            _request(r, kind)
+            res = _request(r, kind)
         for _ in range(TAIL):
             r.tick(0.1, {"In": 3.0})
-        return _digest(r)
+        return repr("rejected" if res == "rejected" else "accepted") + _digest(r)     # what the requester was told + the final state
     finally:
         r.close()
 
@@ -78,7 +85,7 @@ def _concurrent(method, kind, point, occurrence):
 
     def body():
         try:
-            _request(r, kind)
+            st["res"] = _request(r, kind)
         except Exception as ex:
             st["exc"] = type(ex).__name__
 
@@ -97,7 +104,7 @@ def _concurrent(method, kind, point, occurrence):
     try:
         if point == "between-ticks":
             st["fired"] = True
-            _request(r, kind)
+            st["res"] = _request(r, kind)
             st["inside"] = False
         pi.verif_point_hook = hook
         try:
@@ -112,7 +119,7 @@ def _concurrent(method, kind, point, occurrence):
         for _ in range(TAIL):
             r.tick(0.1, {"In": 3.0})
         return dict(fired=st["fired"], ranInside=st["inside"], reqExc=st["exc"], tickExc=(r.raised or tick_exc)[:80], completed=completed,
-                    digest=_digest(r))
+                    digest=repr("rejected" if st.get("res") == "rejected" else "accepted") + _digest(r))
     finally:
         r.close()
 
@@ -136,8 +143,8 @@ def run(ctx: core.Ctx) -> core.Outcome:
     finally:
         tlc.rm_scratch(scratch)
     evs = []
-    for scen, method in SCENARIOS.items():
-        for kind in ("edit", "inject", "control", "cancel", "force"):
+    for scen, method in list(SCENARIOS.items()) + list(STOPPING.items()):
+        for kind in (("edit", "inject", "control", "cancel", "force") if scen in SCENARIOS else ("start", "edit", "inject")):
             before = _sequential(method, kind, "request")
             after = _sequential(method, kind, "tick")
             for point in points:
@@ -156,7 +163,7 @@ def run(ctx: core.Ctx) -> core.Outcome:
         for clause, line in vs:
             e = evs[line - 1]
             viols.append(core.Violation(key=clause, case=f"{e['scenario']} {e['kind']} at {e['point']}#{e['occurrence']}", detail=str(e),
-                                        replay={"event": e, "method": SCENARIOS[e["scenario"]]}))
+                                        replay={"event": e, "method": {**SCENARIOS, **STOPPING}[e["scenario"]]}))
     cov = dict(states=ok.distinct, transitions=ok.generated, design_spec="TickAtomic", race_found_without_lock=not race.ok,
                traces_validated_against_impl=len(evs), samples=evs[:2],
                points=points, experiments=len(evs), ran_inside=sum(1 for e in evs if e["ranInside"]),
